@@ -330,9 +330,16 @@ def check_path(ctx):
     def _is_ckd(c):
         f = c.func
         return (isinstance(f, _ast.Name) and f.id.lower().startswith("ckd")) or (isinstance(f, _ast.Attribute) and f.attr in ("CKDpriv", "CKDpub"))
-    ncall = sum(1 for n in _ast.walk(fi.node) if isinstance(n, _ast.Call) and _is_ckd(n))
+    # the derivation step may sit in derive_from_path itself or in a helper / strategy object of the same module that it reaches
+    reach = [f for f in rules.reachable_functions(ctx.prog, [fi]) if f.module.name == fi.module.name]
+    holders = {f.node.name for f in reach if f is not fi and any(isinstance(n, _ast.Call) and _is_ckd(n) for n in _ast.walk(f.node))}
+
+    def _leads_to_ckd(c):
+        f = c.func
+        return _is_ckd(c) or (isinstance(f, _ast.Name) and f.id in holders) or (isinstance(f, _ast.Attribute) and f.attr in holders)
+    ncall = sum(1 for f in reach for n in _ast.walk(f.node) if isinstance(n, _ast.Call) and _is_ckd(n))
     R.floor("C09.6", ncall, 1, "ckd_calls_in_derive_from_path")
-    wrapped = [(c, hs) for c, hs in rules.enclosing_try_handlers(fi.node, _is_ckd) if set(hs) & {"AssertionError", "ValueError", "Exception", "BaseException"}]
+    wrapped = [(c, hs) for f in reach for c, hs in rules.enclosing_try_handlers(f.node, _leads_to_ckd) if set(hs) & {"AssertionError", "ValueError", "Exception", "BaseException"}]
     R.check("C09.6", "EXC", fi, "CKD refusals (hardened-from-public, invalid child) propagate out of derive_from_path", not wrapped,
             "the child derivation call is inside try/except %s: a refusal of CKDpub/CKDpriv is swallowed" % (wrapped[0][1] if wrapped else ""),
             line=wrapped[0][0].lineno if wrapped else None, example="M/0' from an extended public key")
